@@ -36,6 +36,56 @@ static void my_emit(j_common_ptr c, int lvl)
   if (lvl < 0) { c->err->num_warnings++; n_warn++; if (c->err->msg_code == JWRN_BOGUS_ICC) n_bogus_icc++; }
 }
 static void my_output(j_common_ptr c) { (void)c; }
+static unsigned char *unhex(const char *s, size_t *n);
+/* rdt: the APP0/APP14/COM trace and warning messages of the marker reader, in order */
+static char trbuf[1 << 16]; static size_t trlen; static int tr_on;
+static void tr_emit(j_common_ptr c, int lvl)
+{
+  const int *p = c->err->msg_parm.i; const char *nm = NULL; int np = 0;
+  if (lvl < 0) { c->err->num_warnings++; n_warn++; }
+  switch (c->err->msg_code) {
+  case JWRN_JFIF_MAJOR: nm = "WarnJfifMajor"; np = 2; break;
+  case JTRC_JFIF: nm = "TrJfif"; np = 5; break;
+  case JTRC_JFIF_THUMBNAIL: nm = "TrThumb"; np = 2; break;
+  case JTRC_JFIF_BADTHUMBNAILSIZE: nm = "TrBadThumbSize"; np = 1; break;
+  case JTRC_THUMB_JPEG: nm = "TrThumbJpeg"; np = 1; break;
+  case JTRC_THUMB_PALETTE: nm = "TrThumbPalette"; np = 1; break;
+  case JTRC_THUMB_RGB: nm = "TrThumbRgb"; np = 1; break;
+  case JTRC_JFIF_EXTENSION: nm = "TrJfifExt"; np = 2; break;
+  case JTRC_APP0: nm = "TrApp0"; np = 1; break;
+  case JTRC_ADOBE: nm = "TrAdobe"; np = 4; break;
+  case JTRC_APP14: nm = "TrApp14"; np = 1; break;
+  case JTRC_MISC_MARKER: nm = "TrMisc"; np = 2; break;
+  default: break;
+  }
+  if (nm && tr_on && trlen + 120 < sizeof(trbuf)) {
+    int k; trlen += (size_t)sprintf(trbuf + trlen, " %s", nm);
+    for (k = 0; k < np; k++) trlen += (size_t)sprintf(trbuf + trlen, "%c%d", k ? ',' : ':', p[k]);
+  }
+}
+static void do_rdt(char **f, int nf)
+{
+  struct jpeg_decompress_struct d; struct jpeg_error_mgr je; unsigned char *buf; size_t n; const char *p;
+  if (nf < 3) { puts("err usage"); return; }
+  buf = unhex(f[2], &n);
+  d.err = jpeg_std_error(&je); je.error_exit = my_exit; je.emit_message = tr_emit; je.output_message = my_output; je.trace_level = 1;
+  trlen = 0; trbuf[0] = 0; tr_on = 1;
+  if (setjmp(jb)) { printf("err\n"); tr_on = 0; jpeg_destroy_decompress(&d); free(buf); return; }
+  jpeg_create_decompress(&d);
+  jpeg_mem_src(&d, buf, (unsigned long)n);
+  p = f[1];
+  if (strcmp(p, "-")) while (*p) {
+    int code = (int)strtol(p, (char **)&p, 10); unsigned lim;
+    if (*p == ':') p++;
+    lim = (unsigned)strtoul(p, (char **)&p, 10);
+    if (*p == ',') p++;
+    jpeg_save_markers(&d, code, lim);
+  }
+  jpeg_read_header(&d, TRUE);
+  tr_on = 0;
+  printf("tr%s\n", trbuf);
+  jpeg_destroy_decompress(&d); free(buf);
+}
 
 /* ------------------------------------------------------------------ utils */
 static int hexval(int c) { return c <= '9' ? c - '0' : (c | 32) - 'a' + 10; }
@@ -544,9 +594,9 @@ static void do_rdall(char **f, int nf)
     jpeg_save_markers(&d, code, lim);
   }
   if (jpeg_read_header(&d, TRUE) != JPEG_HEADER_OK) { puts("err header"); jpeg_destroy_decompress(&d); free(buf); return; }
+  put_view(&d);                      /* the marker reader's state, before jinit_huff_decoder may add the standard tables */
   d.buffered_image = TRUE;
   jpeg_start_decompress(&d);
-  put_view(&d);
   for (;;) {
     rc = jpeg_consume_input(&d);
     if (rc == JPEG_REACHED_SOS) { printf(" | "); put_view(&d); }
@@ -660,6 +710,7 @@ int main(void)
     else if (!strcmp(f[0], "xfh")) do_xfh(f, nf);
     else if (!strcmp(f[0], "xfm")) do_xfm(f, nf);
     else if (!strcmp(f[0], "rdall")) do_rdall(f, nf);
+    else if (!strcmp(f[0], "rdt")) do_rdt(f, nf);
     else if (!strcmp(f[0], "wst")) do_wst(f, nf);
     else puts("-");
     fflush(stdout);
